@@ -88,11 +88,19 @@ def body(env, cfg):
                 same_objects(env, bV, V, f"& right {tag}")
     # different intervals
     U = KnotVector(list(refU.U))
-    for other in (KnotVector([x + 1 for x in refU.U]), KnotVector([t[0]] * (q + 1) + [t[-1] + 1] * (q + 1))):
-        for op in ("|", "&"):
+    lo_, hi_ = t[0], t[-1]
+    mid_ = (lo_ + hi_) / 2
+    ends = [(lo_, hi_ + 1), (lo_, mid_), (mid_, hi_), ((3 * lo_ + hi_) / 4, (lo_ + 3 * hi_) / 4), (lo_ - 1, hi_ + 1), (lo_ - 1, hi_)]
+    others = [KnotVector([x + 1 for x in refU.U])] + [KnotVector([a] * (q + 1) + [b] * (q + 1)) for a, b in ends]
+    for other in others:
+        bU, bO = tuple(U), tuple(other)
+        for op, fn in (("U | other", lambda: U | other), ("other | U", lambda: other | U), ("U & other", lambda: U & other),
+                       ("other & U", lambda: other & U)):
             try:
-                (U | other) if op == "|" else (U & other)
+                fn()
             except ValueError:
+                same_objects(env, bU, U, f"rejected {op}")
+                same_objects(env, bO, other, f"rejected {op}")
                 continue
-            env.fail(f"{op} of vectors on different intervals did not raise ValueError")
+            env.fail(f"{op} of vectors on different intervals (one contained in, containing, or overlapping the other) did not raise ValueError")
     env.holds("different intervals rejected", True)
